@@ -157,6 +157,60 @@ def run(rep, tier, rng):
         if msg:
             rep.violation({"kind": "oracle", "what": msg, "case_kind": "read", "case": c})
             break
+    # 4b. codes whose low byte(s) alone would be an ESRI code (256 + c, 65536 + c, c << 8 ...), read from sources that hand
+    # out one, two or three bytes per read call: the four bytes of the code are the code, however they arrive
+    scases, smeta = [], []
+    tricky = sorted({256 * k + c0 for c0 in ESRI for k in (1, 2, 256, 65536)} | {c0 << 8 for c0 in ESRI if c0})
+    if tier != "thorough":
+        tricky = rng.sample(tricky, 24)
+    for code in tricky:
+        body = struct.pack("<i", code) + bytes(16)
+        rec = struct.pack(">ii", 1, len(body) // 2) + body
+        for sched in ([1], [3], [2, 1]):
+            hdr = bytearray(refesri.encode_header(0, [0] * 8, (100 + len(rec)) // 2))
+            scases.append(C.read_case(-1, bytes(hdr) + rec, None, [("it", -1)], sched=sched))
+            smeta.append((code, "record", sched))
+            hdr[32:36] = struct.pack("<i", code)
+            scases.append(C.read_case(-1, bytes(hdr) + rec, None, [("it", -1)], sched=sched))
+            smeta.append((code, "header", sched))
+    simpl = stages.correspondence(rep, "files_short", dev, scases, "read(type code arriving in pieces)")
+    for c, r, (code, where, sched) in zip(scases, simpl, smeta):
+        rd = C.parse_read(r, [("it", -1)])
+        good = (rd.get("open_err") == [6, code]) if where == "header" else ("ops" in rd and rd["ops"][0]["items"][:1] == [("err", 6, code)])
+        if not good:
+            rep.violation({"kind": "oracle", "what": "type code %d in the %s, read from a source delivering %r bytes per call, was not refused with "
+                           "InvalidShapeType(%d): %r" % (code, where, sched, code, rd.get("open_err") or (rd.get("ops") or [{}])[0].get("items", [])[:1]),
+                           "case_kind": "read", "case": c})
+            break
+    # 4c. through the complete reader (shapes paired with table rows): a record whose code is no ESRI code is reported as
+    # such wherever the table ends (kind 17: fewer rows than records, as many, more)
+    import C08
+    pt = lambda i: {"num": i + 1, "shape": {"code": 1, "x": i, "y": i}}
+    pcases, pmeta = [], []
+    for code in ([2, 19, 267, -11, lo] if tier != "thorough" else [2, 4, 19, 32, 267, -11, -1, lo, hi]):
+        for bad_at in (0, 2):
+            m = {"type": 1, "box": [0] * 8, "records": [pt(i) for i in range(3)]}
+            shp = bytearray(refesri.encode_shp(m))
+            pos = 100 + 28 * bad_at + 8
+            shp[pos:pos + 4] = struct.pack("<i", code)
+            for nrows in (0, 2, 3, 5):
+                for ops in ([("readall",)], [("it", -1)]):
+                    for wi in (True, False):
+                        pcases.append([17] + C.pack_bytes(bytes(shp)) + ([1] + C.pack_bytes(refesri.encode_shx(m)) if wi else [0]) + [nrows] + C08.pair_case([], ops)[2:])
+                        pmeta.append((code, bad_at, nrows, ops))
+    pimpl = stages.correspondence(rep, "pairfile", dev, pcases, "pairfile(undefined code through the complete reader)", vm_sample=20)
+    for c, r, (code, bad_at, nrows, ops) in zip(pcases, pimpl, pmeta):
+        if r[:1] != [0]:
+            continue
+        res = C08.parse_pair([0, 0, 0, 0] + r, 0, ops)
+        items = res["ops"][0]["items"]
+        reported = any(it[0] == "err" and tuple(it[1:3]) == (6, code) for it in items)
+        # the record is reached when the rows before it exist (shape i is read before row i is asked for)
+        if nrows >= bad_at and not reported:
+            rep.violation({"kind": "oracle", "what": "complete reader, %d rows, record %d of 3 carries the undefined type code %d: %r returned %r "
+                           "without reporting InvalidShapeType(%d)" % (nrows, bad_at, code, ops[0], [it[:3] if it[0] != "ok" else "ok" for it in items], code),
+                           "case_kind": "pairfile", "case": c[:120]})
+            break
     # 5. the code as WRITTEN: one shape of each of the 13 types through the writer; header and record carry the ESRI code
     import shapes as SH
     wcases = [C.whist_case(True, 0, [("w", SH.gen_ctor(rng, code, "small"))]) for code in SH.ALL_CODES]
